@@ -216,6 +216,12 @@ func (l *IPFSLog) traverse(rootEntries iface.IPFSLogOrderedEntries, amount int, 
 
 	// Cache for checking if we've processed an entry already
 	traversed := map[string]struct{}{}
+	// The start entries are on the stack already: one that lies in the causal
+	// past of another must not be put there a second time when the walk reaches
+	// it (it would be taken twice and counted twice against the amount)
+	for _, e := range stack {
+		traversed[e.GetHash().String()] = struct{}{}
+	}
 	// End result
 	result := entry.NewOrderedMap()
 	// We keep a counter to check if we have traversed requested amount of entries
